@@ -320,14 +320,38 @@ def load_file_rule(ctx, program, rid):
         if "ast_ctx.parse" in evs:
             no_old = any("cls.get" in repr(a) and not v for a, v in c.assume)  # the lookup of the old context came back empty
             i = evs.index("ast_ctx.parse")
-            if not no_old and not ("cls.delete" in evs[:i] or "ctx_curr.stop" in evs[:i]):
-                bad_order = desc
             if kind == "raise" and ("parse" in desc or "eval" in desc) and "global_ctx.stop" not in evs[i:]:
                 bad_fail = desc
         if "cls.set" in evs and kind == "raise":
             bad_reg = desc
         if kind == "return" and "ast_ctx.eval" in evs and "cls.set" not in evs:
             bad_reg = "successful load not registered"
+    # the order "old context stopped and forgotten, then the new source parsed" is decided on a two-scenario model of the context table
+    from ..absint import ClassV, Const, DictV, ObjV
+    for has_old in (True, False):
+        old, new, ev = ObjV("old", "GlobalContext"), ObjV("new", "GlobalContext"), ObjV("ev", "AstEval")
+        seen = {"stops": 0, "parse": []}
+
+        def stop(i, n, a, k, c, o, seen=seen):
+            seen["stops"] += 1
+            return [(c, Const(None))]
+
+        def parse(i, n, a, k, c, o, seen=seen, old=old):
+            tab = c.heap.get("GlobalContextMgr.contexts")
+            seen["parse"].append((seen["stops"], isinstance(tab, DictV) and old in [v for _, v in tab.items]))
+            return [(c, Const(None))]
+
+        pol2 = FlowPolicy(program, may_raise_all=False, cancel=False,
+                          summaries={"AstEval": lambda i, n, a, k, c, o, ev=ev: [(c, ev)], "Function.install_ast_funcs": lambda i, n, a, k, c, o: [(c, Const(None))],
+                                     "<old>.stop": stop, "<ev>.parse": parse, "<ev>.eval": lambda i, n, a, k, c, o: [(c, Const(None))]})
+        heap2 = {"GlobalContextMgr.contexts": DictV(([(Const("file.a"), old)] if has_old else []) + [(Const("file.b"), ObjV("other", "GlobalContext"))]), "new.name": Const("file.a"),
+                 "old.name": Const("file.a")}
+        ex2 = exits(run_flow(program, uid, pol2, args={"cls": ClassV("GlobalContextMgr"), "global_ctx": new, "file_path": Const("/cfg/pyscript/a.py"), "source": Const("x = 1"),
+                                                      "reload": Const(False)}, heap=heap2))
+        if not ex2 or any(k != "return" for k, c, d in ex2) or not seen["parse"]:
+            bad_order = f"old context {'registered' if has_old else 'absent'}: exits {[d for k, c, d in ex2]}, parse reached {len(seen['parse'])} time(s)"
+        elif has_old and any(stops == 0 or still for stops, still in seen["parse"]):
+            bad_order = "the old context is " + ("still registered" if any(still for _, still in seen["parse"]) else "not stopped") + " when the new source is parsed"
     ctx.check(bad_order is None, rid, uid, "previous context of the same name stopped/deleted before the new source runs",
               msg=f"load_file: on [{bad_order}] the new source is parsed/evaluated while the old context of the same name is still registered and running",
               key="old context removed before parse", node=f, rel="global_ctx.py", sample={"exits": n})
